@@ -260,22 +260,33 @@ def main():
     a = ap.parse_args()
     done = load_results()
     if a.recheck:
+        # every MISSED mutant again: the whole test suite of the repository first, then the checks with the time budget
+        # of a 16-core quick run (VERIF_BUDGET_S is raised because several mutants run side by side)
         base = baseline_failures([], full=True)
         print('baseline failures (full suite):', base)
+        os.environ['VERIF_BUDGET_S'] = '300'
+        jobs = []
+        cache = {}
         for (mid, prop), r in sorted(done.items()):
             if r['status'] != 'MISSED' or r.get('rechecked'):
                 continue
-            cover = json.load(open(os.path.join(VERIF, 'tools', 'coverage_lines.json')))
-            text, cands = candidates(os.path.join('/repo', r['file']), range(1, 10 ** 6))
+            if r['file'] not in cache:
+                cache[r['file']] = candidates(os.path.join('/repo', r['file']), range(1, 10 ** 6))
+            text, cands = cache[r['file']]
             cand = next((c for c in cands if mutant_id(r['file'], c) == mid), None)
             if cand is None:
                 print(mid, 'stale')
                 continue
-            rec = run_one((r['file'], prop, cand, 16, base, True, text))
-            rec['rechecked'] = True
-            with open(RESULTS, 'a') as f:
-                f.write(json.dumps(rec) + '\n')
-            print(rec['id'], rec['prop'], rec['status'], rec['file'], rec['line'], rec['desc'], '|', rec.get('new_line', ''))
+            jobs.append((r['file'], prop, cand, a.workers, base, True, text))
+        counts = {}
+        with cf.ThreadPoolExecutor(max_workers=a.jobs) as ex:
+            for rec in ex.map(run_one, jobs):
+                rec['rechecked'] = True
+                counts[rec['status']] = counts.get(rec['status'], 0) + 1
+                with open(RESULTS, 'a') as f:
+                    f.write(json.dumps(rec) + '\n')
+                print(rec['id'], rec['prop'], rec['status'], rec['file'], rec['line'], rec['desc'], '|', rec.get('new_line', ''), flush=True)
+        print(counts)
         return 0
     cover = json.load(open(os.path.join(VERIF, 'tools', 'coverage_lines.json')))
     base = os.path.basename(a.file)
